@@ -295,6 +295,42 @@ func genCase(r *hx.Rand, tier string) *caseT {
 		}
 		return k
 	}
+	if !simple && r.Chance(1, 30) {
+		// a middleware behind compression wraps the writer and never takes its wrapper off; the handler panics
+		// before any output and recovery (in front) answers
+		k.Recovery = true
+		k.Wrap = "inner-sticky-flush"
+		if r.Chance(1, 2) {
+			k.Prog = append(k.Prog, opT{K: "H", Key: "X-Custom", Vals: []string{"v1"}})
+		}
+		if r.Chance(1, 3) {
+			k.Prog = append(k.Prog, opT{K: "St", Code: hx.Pick(r, []int{202, 404})})
+		}
+		k.Prog = append(k.Prog, opT{K: "Pn"})
+		return k
+	}
+	if !simple && r.Chance(1, 30) {
+		// a writer in front of the compression middleware refuses one write; the response is passed through from the
+		// first byte (streaming type or 206), the handler keeps writing
+		if r.Chance(1, 2) {
+			k.Prog = append(k.Prog, opT{K: "H", Key: "Content-Type", Vals: []string{hx.Pick(r, []string{"text/event-stream", "application/octet-stream"})}}, opT{K: "W", Code: 200})
+		} else {
+			k.Prog = append(k.Prog, opT{K: "H", Key: "Content-Type", Vals: []string{"text/plain"}}, opT{K: "W", Code: 206})
+		}
+		nwr := r.Range(2, 5)
+		for i := 0; i < nwr; i++ {
+			d := chunk()
+			if len(d) == 0 {
+				d = []byte{byte('A' + i)}
+			}
+			k.Prog = append(k.Prog, opT{K: "B", Data: d})
+			if r.Chance(1, 4) {
+				k.Prog = append(k.Prog, opT{K: "F"})
+			}
+		}
+		k.Wrap = "outer-refuse-" + strconv.Itoa(r.Range(1, nwr))
+		return k
+	}
 	if !simple && r.Chance(1, 25) {
 		// an informational status after the final one, behind a first-call-wins status recorder
 		k.Wrap = "outer-recorder"
@@ -498,6 +534,19 @@ func genSeq(r *hx.Rand, tier string) []caseT {
 		}
 		g = append(g, *k)
 	}
+	if r.Chance(1, 2) {
+		// two clients whose long Accept-Encoding values have the same length and the same first 40 bytes but end in
+		// different verdicts (what a per-instance negotiation cache with a truncated key would confuse)
+		prefix := hx.Pick(r, []string{"deflate;q=0.5, compress;q=0.25, identity;q=0.1, ", "zstd;q=0.9, deflate;q=0.8, x-unknown-coding;q=0.7, "})
+		tails := []string{"gzip;q=1, br;q=0", "gzip;q=0, br;q=1", "gzip;q=0, br;q=0", "gzip;q=1, br;q=1", "gzip;q=0, br;q=0"}
+		hx.Shuffle(r, tails)
+		for i := 0; i < 2 && i < len(g); i++ {
+			g[i].AE = sp(prefix + tails[i])
+			g[i].Head = false
+			g[i].ReqHdr = nil
+			g[i].Prog = []opT{{K: "H", Key: "Content-Type", Vals: []string{"text/plain"}}, {K: "B", Data: bytes.Repeat([]byte{byte('p' + i)}, 40)}}
+		}
+	}
 	return g
 }
 
@@ -577,6 +626,10 @@ func fixedCases() []*caseT {
 		// an interim status after the final one, behind a first-call-wins recorder; nosniff without a Content-Type
 		{Path: "/p", AE: gz, Wrap: "outer-recorder", Opt: optT{MinSize: 64}, Prog: []opT{ct, {K: "W", Code: 404}, {K: "W", Code: 103}, {K: "B", Data: []byte("not found")}}},
 		{Path: "/p", AE: gz, Prog: []opT{{K: "H", Key: "X-Content-Type-Options", Vals: []string{"nosniff"}}, {K: "B", Data: []byte("<html><body>x</body></html>")}}},
+		// a wrapper behind compression that is never taken off, panic before output, recovery in front
+		{Path: "/p", AE: gz, Recovery: true, Wrap: "inner-sticky-flush", Prog: []opT{{K: "Pn"}}},
+		// one refused write on a passed-through response, the handler keeps writing
+		{Path: "/p", AE: gz, Wrap: "outer-refuse-2", Prog: []opT{{K: "H", Key: "Content-Type", Vals: []string{"text/event-stream"}}, {K: "W", Code: 200}, {K: "B", Data: []byte("data: 1\n\n")}, {K: "B", Data: []byte("data: 2\n\n")}, {K: "B", Data: []byte("data: 3\n\n")}}},
 		// HEAD, Range and conditional requests
 		{Path: "/p", AE: gz, Head: true, Prog: []opT{ct, {K: "W", Code: 200}, {K: "B", Data: []byte("head body")}}},
 		{Path: "/p", AE: gz, Head: true, Prog: []opT{{K: "B", Data: []byte("<html>sniff me")}}},
